@@ -8,7 +8,8 @@ each worker rebuilds its worlds from scratch, so workers share nothing but the i
 A model object provides
     fresh()                      -> world                 (after resetting every global the property can observe)
     ops(world)                   -> list of JSON-able op tuples enabled in this state (deterministic order)
-    apply(world, op, rec, hist)  -> "ok" | "prune" | "viol"   runs the REAL code, steps the reference, judges
+    apply(world, op, rec, hist)  -> "ok" | "prune" | "viol" | "probe"   runs the REAL code, steps the reference, judges
+                                    ("probe": judged, but the state it leads to is not expanded - a one-step look-ahead)
     canon(world)                 -> hashable canonical form (see DESIGN 2.3 for why it keeps concrete ids)
 `apply` with rec=None is a silent replay step (no judging, no counting).
 """
@@ -65,6 +66,8 @@ def _expand(args):
                 succ.append((hist + (op,), _digest(model.canon(w))))
             elif st == "prune":
                 rec.count("inadmissible")
+            elif st == "probe":
+                rec.count("probe_transitions")   # judged like any other transition, its result state is not expanded further
             del w
     return succ, rec.result()
 
